@@ -193,8 +193,8 @@ def run_shard(ctx):
     @st.composite
     def cases(draw):
         s = draw(gen.structures(max_res=30 if quick else 60))
-        step = draw(st.sampled_from([0.1, 0.1, 0.05, 0.25, 0.2, 0.3, 0.7, 0.5, 1.0, 2.0, 0.07, 0.15]))
-        mn = draw(st.sampled_from([0.0, 0.0, 1.0, -2.0, 3.5, 7.0, -0.5]))
+        step = draw(st.sampled_from([0.1, 0.1, 0.05, 0.25, 0.2, 0.3, 0.7, 0.5, 1.0, 2.0, 0.07, 0.15, 0.125, 0.025, 0.0625]))
+        mn = draw(st.sampled_from([0.0, 0.0, 1.0, -2.0, 3.5, 7.0, -0.5, 0.005, 6.125]))
         span = draw(st.sampled_from([14.0, 14.0, 7.0, 1.0, 10.0, 16.0, 2.1]))
         grid = (mn, mn + span, step)
         wstep = draw(st.sampled_from([1.0, 1.0, 0.5, 2.0, 3.0, 0.1, 0.2]))
